@@ -66,7 +66,8 @@ def functions(tier, seed):
         if a.key == "int":
             add(int_t, [b, a])
     # special names
-    for nm in ("type", "fn", "match", "self_fn$x", "a$b", "Self", "crate_", "async", "dyn", "gen", "try", "box"):
+    # keywords (mangled to `kw_`), names that collide with a mangled keyword declared before / after it, `$`
+    for nm in ("try_", "type", "fn", "match", "match_", "type_", "self_fn$x", "a$b", "Self", "crate_", "async", "dyn", "gen", "try", "box", "box_", "box_1"):
         add(int_t, [next(t for t in A if t.key == "s8if"), int_t], name=nm)
     if tier == "quick":
         keep = [f for k, f in enumerate(fns) if k < 160 or (k + seed) % 5 == 0 or not f.name.startswith("K") or f.abi]
@@ -240,7 +241,7 @@ def rust_caller(fns, idx, bindings_path, prefix_path):
             continue
         rname = ent[0]
         for setk in range(3):
-            lines = [f"let mut h: u64 = 1469598103934665603; /*{tag}*/"]
+            lines = [f"let mut h: u64 = {f.basis()}; /*{tag}*/"]
             args = []
             allleaves = []
             for i, p in enumerate(f.params):
@@ -406,7 +407,9 @@ def run(ck, only=None):
                              {"cid": f.cid(), "name": f.name, "opt": oname, "why": f"{what}: {why}; prototype: {f.proto()}"})
     if not only or only.get("cpp"):
         cpp_part(ck)
-    if only and only.get("cpp"):
+    if not only or only.get("linkage"):
+        linkage_part(ck)
+    if only and (only.get("cpp") or only.get("linkage")):
         return
     ck.sample({"signature": fns[min(len(fns) - 1, 200)].cid(), "prototype": fns[min(len(fns) - 1, 200)].proto()})
     ck.extra["functions"] = len(fns)
@@ -546,6 +549,80 @@ def cpp_part(ck):
                 ck.violation(f"cpp-classes opt={n} test={t} caller-crashed", dict(det, why=f"exit {p.returncode}"))
             elif "BAD" in out:
                 ck.violation(f"cpp-classes opt={n} test={t} wrong-value", dict(det, why=f"the values observed through the bindings differ from the C++ definition's ({t})"))
+
+
+INL_H = r"""
+static inline int si_clamp(int v) { return v < 0 ? 0 : v; }
+inline int il_twice(int v) { return 2 * v; }
+extern inline int ei_neg(int v) { return -v; }
+static int st_plain(int v) { return v + 1; }
+static inline int si_unused(int v) { return v; }
+int normal_fn(int v);
+extern int normal_var;
+static int st_var = 3;
+static const int st_cvar = 4;
+"""
+INL_C = r"""
+#include "inl.h"
+extern inline int il_twice(int v);
+int normal_var = 9;
+int normal_fn(int v) { return si_clamp(v) + st_plain(v) + st_var; }
+"""
+INL_EXPECT = {"normal_fn": ("(-4)", "0 + -3 + 3"), "il_twice": ("(21)", "42"), "ei_neg": ("(5)", "-5")}
+
+
+def linkage_part(ck):
+    """Linkage kinds: every function / variable the bindings DECLARE must be a symbol the C compiler defines with external
+    linkage (nm), and calling it gives the C result; internal-linkage functions may only appear as constants or not at all."""
+    wd = os.path.join(ck.wd, "linkage")
+    os.makedirs(wd, exist_ok=True)
+    open(os.path.join(wd, "inl.h"), "w").write(INL_H)
+    open(os.path.join(wd, "inl.c"), "w").write(INL_C)
+    rc, _, err = common.clang(["-O0", "-w", "-c", "inl.c", "-o", "inl.o"], cwd=wd)
+    common.guard(rc == 0, "C04 linkage library does not compile: " + err[:300])
+    nm = common.sh(["nm", "--defined-only", "-g", os.path.join(wd, "inl.o")]).stdout.decode()
+    defined = {l.split()[-1] for l in nm.splitlines() if l.strip()}
+    common.guard({"normal_fn", "normal_var", "il_twice", "ei_neg"} <= defined and "si_clamp" not in defined, f"C04 linkage oracle unexpected symbol table: {sorted(defined)}")
+    rows = [("default", []), ("generate-inline", ["--generate-inline-functions"]), ("generate-inline-merge", ["--generate-inline-functions", "--merge-extern-blocks"]),
+            ("generate-inline-fns-only", ["--generate-inline-functions", "--generate", "functions"]), ("c-naming-inline", ["--generate-inline-functions", "--c-naming"])]
+    res = common.run_jobs([{"id": n, "args": [os.path.join(wd, "inl.h"), "--no-layout-tests"] + fl, "inventory": True} for n, fl in rows], wd)
+    for n, fl in rows:
+        r = res[n]
+        det = {"linkage": True, "opt": n}
+        if r["status"] != "ok":
+            ck.count()
+            ck.violation(f"linkage opt={n} generation-failed", dict(det, why=str(r)[:200]))
+            continue
+        idx = rust_name_index(r["inventory"])
+        for sym in sorted(idx):
+            ck.count()
+            ck.nontriv(("linkage", n, sym))
+            if sym not in defined:
+                ck.violation(f"linkage opt={n} symbol={sym} dangling-declaration", dict(det, why=f"the bindings declare `{idx[sym][0]}` but the object file defines no external symbol `{sym}` (defined: {sorted(defined)})"))
+        must = {"normal_fn"} | ({"normal_var"} if "functions" not in fl else set()) | ({"il_twice", "ei_neg"} if "--generate-inline-functions" in fl else set())
+        for sym in sorted(must - set(idx)):
+            ck.count()
+            ck.violation(f"linkage opt={n} symbol={sym} no-binding", dict(det, why=f"no declaration reaches the external symbol `{sym}`"))
+        live = [sym for sym in INL_EXPECT if sym in idx and sym in defined]
+        bp = os.path.join(wd, f"b_{n.replace('-', '_')}.rs")
+        open(bp, "w").write(r["text"])
+        body = "\n".join(f'    if b::{idx[sym][0]}{INL_EXPECT[sym][0]} != {INL_EXPECT[sym][1]} {{ println!("BAD {sym}"); }}' for sym in live)
+        if "normal_var" in idx:
+            body += "\n    if b::" + idx["normal_var"][0] + ' != 9 { println!("BAD normal_var"); }'
+        src = '#![allow(warnings)]\nmod b { include!("' + bp + '"); }\nfn main() { unsafe {\n' + body + '\n  }\n  println!("DONE");\n}\n'
+        mp = os.path.join(wd, f"main_{n.replace('-', '_')}.rs")
+        open(mp, "w").write(src)
+        exe = os.path.join(wd, f"exe_{n.replace('-', '_')}")
+        ok, err = common.rustc_bin(mp, exe, opt=False, extra=["-C", f"link-arg={os.path.join(wd, 'inl.o')}"])
+        ck.count()
+        if not ok:
+            m = re.search(r"error(\[E\d+\])?: (.*)", err)
+            ck.violation(f"linkage opt={n} caller-does-not-build", dict(det, why=(m.group(0) if m else err[:300])))
+            continue
+        p = common.sh([exe], timeout=60)
+        out = p.stdout.decode()
+        if p.returncode != 0 or "DONE" not in out or "BAD" in out:
+            ck.violation(f"linkage opt={n} wrong-value", dict(det, why=f"exit {p.returncode}: {out[:200]}"))
 
 
 def replay(ck, case, detail):
